@@ -1483,20 +1483,36 @@ class NetCDFWrite(IOWrite):
         ncdim = self._get_node_ncdimension(nodes, default="node")
         ncdim = self._netcdf_name(ncdim, dimsize=size, role="node")
 
+        # Write the node count, part node count and interior ring
+        # variables that describe how these nodes are divided into
+        # cells and parts (each of them is only created if an equal
+        # variable on the same dimension is not already in the
+        # dataset)
+        encodings = {}
+
+        nc_encodings = self._write_node_count(
+            f, coord, bounds, coord_ncdimensions, encodings
+        )
+        encodings.update(nc_encodings)
+
+        pnc_encodings = self._write_part_node_count(
+            f, coord, bounds, encodings
+        )
+        encodings.update(pnc_encodings)
+
+        ir_encodings = self._write_interior_ring(f, coord, bounds, encodings)
+        encodings.update(ir_encodings)
+
         create = True
         if self._already_in_file(nodes, (ncdim,)):
             # This node coordinates variable has been previously
             # created, so no need to do so again.
             ncvar = g["seen"][id(nodes)]["ncvar"]
 
-            geometry_dimension = g["geometry_encoding"][ncvar][
-                "geometry_dimension"
-            ]
-
-            if geometry_dimension == coord_ncdimensions[0]:
-                # The node coordinate variable already exists, and the
-                # corresponding encoding variables span the correct
-                # dimension.
+            if g["geometry_encoding"][ncvar] == encodings:
+                # The node coordinate variable already exists, and it
+                # is divided into the same cells, parts and interior
+                # rings on the same geometry dimension.
                 create = False
 
                 # We need to log the original Bounds variable as being
@@ -1509,8 +1525,9 @@ class NetCDFWrite(IOWrite):
                 }
             else:
                 # The node coordinate variable already exists, but the
-                # corresponding encoding variables span the wrong
-                # dimension => we have to create a new node
+                # corresponding encoding variables are different
+                # (other cells, parts or interior rings, or another
+                # geometry dimension) => we have to create a new node
                 # coordinates variable.
                 create = True
 
@@ -1565,23 +1582,6 @@ class NetCDFWrite(IOWrite):
                 None,
                 construct_type=self.implementation.get_construct_type(coord),
             )
-
-            encodings = {}
-
-            nc_encodings = self._write_node_count(
-                f, coord, bounds, coord_ncdimensions, encodings
-            )
-            encodings.update(nc_encodings)
-
-            pnc_encodings = self._write_part_node_count(
-                f, coord, bounds, encodings
-            )
-            encodings.update(pnc_encodings)
-
-            ir_encodings = self._write_interior_ring(
-                f, coord, bounds, encodings
-            )
-            encodings.update(ir_encodings)
 
             g["geometry_encoding"][ncvar] = encodings
 
